@@ -5,6 +5,7 @@
 package zzvf
 
 import (
+	"bytes"
 	"encoding/hex"
 	"encoding/json"
 	"fmt"
@@ -31,7 +32,9 @@ func load() {
 		if err != nil {
 			panic(err)
 		}
-		if err := json.Unmarshal(b, &assign); err != nil {
+		dec := json.NewDecoder(bytes.NewReader(b))
+		dec.UseNumber()
+		if err := dec.Decode(&assign); err != nil {
 			panic(err)
 		}
 	}
@@ -100,11 +103,11 @@ func raw(name string) []byte {
 	return nil
 }
 
-func Bool(name string) bool       { return num(name) != 0 }
-func Int64(name string) int64     { return num(name) }
-func Int(name string) int         { return int(num(name)) }
-func Int32(name string) int32     { return int32(num(name)) }
-func Byte(name string) byte       { return byte(num(name)) }
+func Bool(name string) bool                { return num(name) != 0 }
+func Int64(name string) int64              { return num(name) }
+func Int(name string) int                  { return int(num(name)) }
+func Int32(name string) int32              { return int32(num(name)) }
+func Byte(name string) byte                { return byte(num(name)) }
 func IntRange(name string, lo, hi int) int { return int(num(name)) }
 func IntCase(name string, lo, hi int) int  { return lo + int(num(name)) }
 func Choice(name string, n int) int        { return int(num(name)) }
@@ -143,8 +146,8 @@ func Assert(c bool, label string) {
 		mu.Unlock()
 	}
 }
-func Fail(label string)  { Assert(false, label) }
-func Reach(label string) { mu.Lock(); Reached = append(Reached, label); mu.Unlock() }
+func Fail(label string)        { Assert(false, label) }
+func Reach(label string)       { mu.Lock(); Reached = append(Reached, label); mu.Unlock() }
 func Bound(name string, v int) {}
 
 func And(a ...bool) bool {
@@ -177,12 +180,12 @@ func IteInt64(c bool, a, b int64) int64 {
 	}
 	return b
 }
-func StrEq(a, b string) bool   { return a == b }
-func BytesEq(a, b []byte) bool { return string(a) == string(b) }
-func IsSymbolic() bool         { return false }
-func Trace(args ...any)        { mu.Lock(); TraceLog = append(TraceLog, fmt.Sprint(args...)); mu.Unlock() }
+func StrEq(a, b string) bool       { return a == b }
+func BytesEq(a, b []byte) bool     { return string(a) == string(b) }
+func IsSymbolic() bool             { return false }
+func Trace(args ...any)            { mu.Lock(); TraceLog = append(TraceLog, fmt.Sprint(args...)); mu.Unlock() }
 func Concretize(x, lo, hi int) int { return x }
-func Describe(s string) string { return s }
+func Describe(s string) string     { return s }
 
 var lastPanic string
 
@@ -219,4 +222,12 @@ func RunNative(entry func()) (failures []string, assumeViolated bool) {
 	}()
 	entry()
 	return Failures, false
+}
+
+// Tier is 0 for the quick tier and 1 for the thorough tier ($VERIF_TIER).
+func Tier() int {
+	if os.Getenv("VERIF_TIER") == "thorough" {
+		return 1
+	}
+	return 0
 }
